@@ -116,6 +116,20 @@ func main() {
 		for _, a := range r["false_alarms"].([]string) {
 			fmt.Println("  ", a)
 		}
+	case "neutral":
+		// checker self-test only: obsa neutral <Cxx> — archived property-preserving patches
+		id := os.Args[2]
+		base, err := runObls(repo, id)
+		if err != nil || base.Status != "ok" {
+			fmt.Println("base run failed:", err, base)
+			os.Exit(2)
+		}
+		baseOpen := map[string]bool{}
+		for _, o := range base.Open {
+			baseOpen[o.Key] = true
+		}
+		r := neutralPatchTest(repo, verif, id, baseOpen)
+		fmt.Printf("patches=%v silent=%v alarmed=%v skipped=%v\n", r["patches"], r["silent"], r["alarmed"], r["skipped"])
 	case "obls":
 		os.Exit(obls(repo, os.Args[2]))
 	case "manifest":
@@ -235,6 +249,8 @@ func check(repo, verif, id, tier string) (code int) {
 		extra["selftest"] = selftest(repo, verif, id, baseOpen)
 		// (c) neutral change: rename every variable of the analysed functions; the rules must stay silent
 		extra["neutral_rename"] = renameTest(repo, id, c, baseOpen)
+		// (d) archived property-preserving patches written by sub-agents: the rules should stay silent
+		extra["neutral_patches"] = neutralPatchTest(repo, verif, id, baseOpen)
 	}
 	return c.Finish(verif, tier, seed, time.Since(t0).Seconds(),
 		pr.Explanation+" NOT DECIDED: "+pr.NotDecided,
